@@ -47,7 +47,7 @@ func stress(cfgJSON, tracePath, dir string) {
 		rdir := filepath.Join(dir, fmt.Sprintf("s%d", rid))
 		st, err := buildStack(cfg.stackCfg, rdir, nil, nil)
 		must(err)
-		w.Emit(map[string]any{"t": "reset", "round": rid, "level": cfg.Level, "pers": cfg.Pers, "lk": cfg.LK, "ln": cfg.LN})
+		w.Emit(map[string]any{"t": "reset", "round": rid, "level": cfg.Level, "pers": cfg.Pers, "lk": cfg.LK, "ln": cfg.LN, "init": []string{}})
 		var wg sync.WaitGroup
 		start := make(chan struct{})
 		for gi := 1; gi <= cfg.G; gi++ {
